@@ -35,10 +35,11 @@ type c08blob struct {
 }
 
 type c08World struct {
-	blobs  []*c08blob
-	wholes []string // dictionary of wholeRefs (token = index+1); the last one is of no file
-	vals   map[string]int
-	iw     *ixWorld
+	blobs   []*c08blob
+	wholes  []string // dictionary of wholeRefs (token = index+1); the last one is of no file
+	vals    map[string]int
+	allVals []string // every attribute value present in the world
+	iw      *ixWorld
 }
 
 var c08Attrs = map[string]int{"camliNodeType": 1, "tag": 2, "title": 3, "dateCreated": 4, "camliDefVis": 5}
@@ -127,10 +128,16 @@ func buildC08World(c *ctx, w *world) *c08World {
 			claim(0, "set", "title", fmt.Sprintf("Title %d", i%3))
 		}
 		if c.rng.Intn(2) == 0 {
-			nts := []string{"foo", "bar"}
-			claim(0, "set", "camliNodeType", nts[c.rng.Intn(2)])
+			nts := []string{"foo", "bar", "Foo", "foobar"}
+			pick := func() string {
+				if c.rng.Intn(4) == 0 {
+					return nts[2+c.rng.Intn(2)]
+				}
+				return nts[c.rng.Intn(2)]
+			}
+			claim(0, "set", "camliNodeType", pick())
 			if c.rng.Intn(4) == 0 {
-				claim(0, "set", "camliNodeType", nts[c.rng.Intn(2)]) // a changed type: the "ever had" set grows
+				claim(0, "set", "camliNodeType", pick()) // a changed type: the "ever had" set grows
 			}
 			if c.rng.Intn(8) == 0 {
 				claim(0, "del", "camliNodeType", "")
@@ -198,6 +205,23 @@ func buildC08World(c *ctx, w *world) *c08World {
 			}
 		}
 	}
+	seenVal := map[string]bool{}
+	for _, b := range cw.blobs {
+		var names []string
+		for a := range b.attrs {
+			names = append(names, a)
+		}
+		sort.Strings(names)
+		for _, a := range names {
+			for _, v := range b.attrs[a] {
+				if !seenVal[v] {
+					seenVal[v] = true
+					cw.allVals = append(cw.allVals, v)
+					cw.val(v)
+				}
+			}
+		}
+	}
 	// ranks by blobref text order
 	sorted := append([]*c08blob(nil), cw.blobs...)
 	sort.Slice(sorted, func(i, j int) bool { return sorted[i].ref.String() < sorted[j].ref.String() })
@@ -245,10 +269,13 @@ func (cw *c08World) coq() string {
 			attrs = append(attrs, fmt.Sprintf("(%d, %s)", c08Attrs[a], qlist(vs)))
 		}
 		var nts []string
-		for _, t := range []string{"bar", "foo"} {
-			if b.ntypes[t] {
-				nts = append(nts, fmt.Sprint(cw.val(t)))
-			}
+		var ntNames []string
+		for t := range b.ntypes {
+			ntNames = append(ntNames, t)
+		}
+		sort.Strings(ntNames)
+		for _, t := range ntNames {
+			nts = append(nts, fmt.Sprint(cw.val(t)))
 		}
 		wh := 0
 		for i, x := range cw.wholes {
@@ -264,22 +291,35 @@ func (cw *c08World) coq() string {
 
 // ---- constraint trees ----
 type qc struct {
-	op         string // and or xor not, "" = none
-	a, b       *qc
-	anything   bool
-	camli      string
-	anycamli   bool
-	perm       bool
-	attr, val  string
-	skipHidden bool // SPEC-only
-	numValMin  int  // SPEC-only: NumValue{Min}
-	whole      int  // token
-	wholeRef   string
-	fileName   string // SPEC-only: FileName{HasPrefix}
-	size       *[2]int
-	refis      int    // rank, len+1 = a ref not in the world
-	prefix     string // proper prefix of blobref strings
-	absentRef  blob.Ref
+	op                             string // and or xor not, "" = none
+	a, b                           *qc
+	anything                       bool
+	camli                          string
+	anycamli                       bool
+	perm                           bool
+	attr, val                      string
+	vmEquals, vmContains, vmPrefix string // ValueMatches (a StringConstraint), modelled by the set of values it accepts
+	vmFold                         bool
+	skipHidden                     bool // SPEC-only
+	numValMin                      int  // SPEC-only: NumValue{Min}
+	whole                          int  // token
+	wholeRef                       string
+	fileName                       string // SPEC-only: FileName{HasPrefix}
+	size                           *[2]int
+	refis                          int    // rank, len+1 = a ref not in the world
+	prefix                         string // proper prefix of blobref strings
+	absentRef                      blob.Ref
+}
+
+func (q *qc) hasVM() bool { return q.vmEquals != "" || q.vmContains != "" || q.vmPrefix != "" }
+
+// vmMatches is the documented meaning of the StringConstraint on one value
+func (q *qc) vmMatches(v string) bool {
+	e, c, p := q.vmEquals, q.vmContains, q.vmPrefix
+	if q.vmFold {
+		v, e, c, p = strings.ToLower(v), strings.ToLower(e), strings.ToLower(c), strings.ToLower(p)
+	}
+	return (e == "" || v == e) && (c == "" || strings.Contains(v, c)) && (p == "" || strings.HasPrefix(v, p))
 }
 
 func (q *qc) rich() bool {
@@ -310,8 +350,11 @@ func (q *qc) String() string {
 	}
 	if q.perm {
 		s := "permanode{"
-		if q.attr != "" {
+		if q.attr != "" && !q.hasVM() {
 			s += q.attr + "=" + q.val
+		}
+		if q.hasVM() {
+			s += fmt.Sprintf("%s~{equals %q contains %q prefix %q fold %v}", q.attr, q.vmEquals, q.vmContains, q.vmPrefix, q.vmFold)
 		}
 		if q.skipHidden {
 			s += " skipHidden"
@@ -352,6 +395,9 @@ func (q *qc) toSearch(cw *c08World) *search.Constraint {
 		if q.numValMin > 0 {
 			pc.NumValue = &search.IntConstraint{Min: int64(q.numValMin)}
 		}
+		if q.hasVM() {
+			pc.ValueMatches = &search.StringConstraint{Equals: q.vmEquals, Contains: q.vmContains, HasPrefix: q.vmPrefix, CaseInsensitive: q.vmFold}
+		}
 		sc.Permanode = pc
 	}
 	if q.whole != 0 || q.fileName != "" {
@@ -389,14 +435,22 @@ func (q *qc) coq(cw *c08World) string {
 	}
 	perm := "None"
 	if q.perm {
-		a, v := 0, 0
+		a, v := 0, "PNone"
 		if q.attr != "" {
 			a = c08Attrs[q.attr]
 			if q.val != "" {
-				v = cw.val(q.val)
+				v = fmt.Sprintf("PExact %d", cw.val(q.val))
+			} else if q.hasVM() {
+				var toks []string
+				for _, x := range cw.allVals {
+					if q.vmMatches(x) {
+						toks = append(toks, fmt.Sprint(cw.val(x)))
+					}
+				}
+				v = "PIn " + qlist(toks)
 			}
 		}
-		perm = fmt.Sprintf("(Some (%d, %d))", a, v)
+		perm = fmt.Sprintf("(Some (%d, %s))", a, v)
 	}
 	size := "None"
 	if q.size != nil {
@@ -448,10 +502,10 @@ func (q *qc) eval(b *c08blob) bool {
 			if q.numValMin > 0 && len(vals) < q.numValMin {
 				m = false
 			}
-			if q.val != "" {
+			if q.val != "" || q.hasVM() {
 				found := false
 				for _, v := range vals {
-					if v == q.val {
+					if (q.val == "" || v == q.val) && (!q.hasVM() || q.vmMatches(v)) {
 						found = true
 					}
 				}
@@ -504,7 +558,22 @@ func genQC(c *ctx, cw *c08World, depth int) *qc {
 			case 4, 5:
 				q.attr, q.val = "tag", []string{"x", "y", "z"}[c.rng.Intn(3)]
 			case 6:
-				q.attr, q.val = "title", fmt.Sprintf("Title %d", c.rng.Intn(3))
+				if c.rng.Intn(2) == 0 {
+					q.attr, q.val = "title", fmt.Sprintf("Title %d", c.rng.Intn(3))
+				} else {
+					q.attr = []string{"camliNodeType", "camliNodeType", "title", "tag"}[c.rng.Intn(4)]
+					switch c.rng.Intn(4) {
+					case 0:
+						q.vmEquals = []string{"foo", "FOO", "bar", "x"}[c.rng.Intn(4)]
+					case 1:
+						q.vmContains = []string{"oo", "ba", "Title", "1"}[c.rng.Intn(4)]
+					case 2:
+						q.vmPrefix = []string{"foo", "Fo", "T", "b"}[c.rng.Intn(4)]
+					default:
+						q.vmEquals, q.vmPrefix = "foo", "f"
+					}
+					q.vmFold = c.rng.Intn(2) == 0
+				}
 			default:
 				q.attr = []string{"camliNodeType", "title", "tag"}[c.rng.Intn(3)]
 				if c.rng.Intn(2) == 0 {
@@ -601,6 +670,9 @@ func runC08(c *ctx) {
 				{op: "or", a: nt("foo"), b: &qc{perm: true, attr: "tag", val: "x"}},
 				{op: "and", a: &qc{op: "or", a: nt("foo"), b: nt("bar")}, b: &qc{op: "not", a: nt("foo")}},
 			}
+			shapes = append(shapes,
+				&qc{perm: true, attr: "camliNodeType", vmEquals: "foo", vmFold: true},
+				&qc{op: "or", a: nt("bar"), b: &qc{perm: true, attr: "camliNodeType", vmPrefix: "foo"}})
 			if qi < len(shapes) {
 				q = shapes[qi]
 			} else if qi < 2*len(shapes) {
